@@ -91,6 +91,8 @@ def main():
         else:
             a = a[1:]
     ids = sorted(x for x in os.listdir(os.path.join(VERIF, "seeded")) if os.path.isfile(os.path.join(VERIF, "seeded", x, "patch.diff")))
+    # changes that a later repair made harmless (their demo passes on the current tree) are not run
+    ids = [i for i in ids if "neutralised" not in json.load(open(os.path.join(VERIF, "seeded", i, "meta.json")))]
     if only:
         ids = [i for i in ids if i.startswith(only)]
     if rx:
